@@ -194,6 +194,9 @@ func roleMethods(role, text string) (src sources, main string, ms []struct {
 			root := root
 			mk := func() (*jschema.Schema, error) {
 				s := jschema.New("schema", root)
+				if e := s.AddType("@u", jschema.New("@u", "1")); e != nil {
+					return s, e
+				}
 				err := s.AddType("@t", jschema.New("@t", text))
 				return s, err
 			}
@@ -226,6 +229,7 @@ func roleMethods(role, text string) (src sources, main string, ms []struct {
 		// the root schema and the document are sources too (errors may name them)
 		src["schema"] = "{\n  \"k\": @t\n}"
 		src["doc"] = `{"k":1}`
+		src["@u"] = "1"
 	case "enum":
 		main = "@e"
 		src["@e"] = text
@@ -472,6 +476,13 @@ func loadCorpus(maxLen int) []corpusItem {
 		{"schema", "###\nblock\n###\n[ # c\n  {\n    \"k\": 1.5 // {precision: 1}\n  }\n]", "gen/schema-4"},
 		{"type", "{\n  \"k\": @t // {optional: true}\n} // {allOf: \"@t\"}", "gen/type-1"},
 		{"type", "\"k\" // {regex: \"^k\"}", "gen/type-2"},
+		{"type", "@t | @u", "gen/type-3"},
+		{"type", "@u | @t", "gen/type-4"},
+		{"type", "{\n  \"k\": @t | @u,\n  \"l\": [\n    @t\n  ]\n}", "gen/type-5"},
+		{"type", "1 // {or: [\"@t\", \"@u\"]}", "gen/type-6"},
+		{"type", "{ // {allOf: \"@u\"}\n  \"k\": 1 // {type: \"@u\"}\n}", "gen/type-7"},
+		{"schema", "1 // {type: \"@t\"}", "gen/schema-5"},
+		{"schema", "{ // {additionalProperties: \"@t\", allOf: [\"@t\"]}\n  \"k\": 1 // {enum: @e}\n}", "gen/schema-6"},
 		{"enum", "[\n  1, // one\n  \"a\", /* two */\n  null\n] // tail", "gen/enum-1"},
 		{"regex", "/^a[bc]+\\/d$/ rest", "gen/regex-1"},
 		{"document", "{\"a\":[1,2.5e-3,\"x\\n\\u00e9\",true,null,{}],\"b\":{\"c\":[]}}", "gen/doc-1"},
